@@ -111,11 +111,12 @@ func coqRunes(rs []rune) string {
 
 // ---------------------------------------------------------------- a correspondence / direct-test run
 type Failure struct {
-	Class    string `json:"class"`    // narrow identity used by KNOWN_FINDINGS matching
-	What     string `json:"what"`     // one line
-	Input    string `json:"input"`    // replayable input (op line)
-	Observed string `json:"observed"` // what the implementation did
-	Required string `json:"required"` // what the property demands
+	Class    string      `json:"class"`            // narrow identity used by KNOWN_FINDINGS matching
+	What     string      `json:"what"`             // one line
+	Input    string      `json:"input"`            // replayable input (op line)
+	Observed string      `json:"observed"`         // what the implementation did
+	Required string      `json:"required"`         // what the property demands
+	Replay   interface{} `json:"replay,omitempty"` // machine-readable form of the input for `./check <id> --replay`
 }
 
 type Run struct {
@@ -133,6 +134,8 @@ type Run struct {
 	Failures    []Failure
 	failSeen    map[string]int
 	Notes       []string
+
+	replay interface{} // replay object of the case being evaluated (SetReplay)
 
 	imports   []string
 	caseExprs []string // boolean Gallina expressions
@@ -206,6 +209,10 @@ func (r *Run) Sample(v interface{}) {
 	}
 }
 
+// SetReplay declares the machine-readable form of the input now being evaluated; the next
+// Fail calls attach it to their record.
+func (r *Run) SetReplay(v interface{}) { r.replay = v }
+
 // Fail records a direct property failure on the implementation.  At most
 // three per class are kept (the first ones generated are the smallest, the
 // corpus and boundary cases run first).
@@ -214,7 +221,7 @@ func (r *Run) Fail(class, what, input, observed, required string) {
 	if r.failSeen[class] > 3 {
 		return
 	}
-	r.Failures = append(r.Failures, Failure{class, what, input, observed, required})
+	r.Failures = append(r.Failures, Failure{class, what, input, observed, required, r.replay})
 }
 
 // Case adds one model-correspondence case: expr is a closed boolean Gallina
